@@ -452,6 +452,26 @@ def _run_ref(case, ctx):
     full = zoo.make_series(rng, total, positive=True, off=off, kind=case["series"], integer=case["dseed"] % 5 == 0)
     y = full.iloc[:n]
     real = zoo.build(spec)
+    if case["dseed"] % 4 == 0 and zoo.children(spec) and spec[0] in ("ensemble", "stack", "online", "multiplex", "pipeline"):
+        # the composite had an earlier life: the same class with other parts, fitted on another series, then reconfigured with set_params
+        # to the parts of this case - the second fit must be that of the new parts
+        alt = [spec[0], dict(spec[1])] + [list(x) if isinstance(x, list) else x for x in spec[2:]]
+        simple = ["naive", {"strategy": "mean", "window_length": 2}]
+        if spec[0] == "pipeline":
+            alt[3] = simple
+        else:
+            alt[2] = [simple for _ in spec[2]]
+        try:
+            used = zoo.build(alt)
+            y0 = zoo.make_series(rng, zoo.min_length(spec) + 14, positive=True, off=off + 5, kind="walk")
+            used.fit(y0, fh=fh)
+            used.predict(fh)
+            used.set_params(**real.get_params(deep=False))
+            real = used
+            ctx.tag("composite:reconfigured-after-an-earlier-fit")
+        except Exception as e:  # noqa
+            ctx.tag("earlier-life-failed:" + type(e).__name__)
+            real = zoo.build(spec)
     cutoff = int(y.index[-1])
     # a horizon-dependent forecaster keeps the horizon it was fitted with: an absolute one refers to fixed time points and
     # cannot follow the cutoff through updates, so absolute horizons are only combined with updates for the others
